@@ -38,6 +38,13 @@ type Contract struct {
 	Lets     []*LetDef
 	Sums     bool // ghost sums UT/UTA are maintained while verifying this function
 	Covers   []string // extra properties whose obligations (callee demands) arise inside this function
+	Hints    []*HintAt // lemma-instance hints (use_* only) assumed right after a call site
+}
+
+type HintAt struct {
+	Site string // "<func>/<callee>#<k>" as in obligation names
+	Expr *Expr
+	Src  string
 }
 
 type LetDef struct {
@@ -67,7 +74,7 @@ type SpecDB struct {
 }
 
 var clauseKeywords = map[string]bool{"func": true, "loop": true, "requires": true, "ensures": true, "modifies": true,
-	"sweep": true, "modular": true, "trusted": true, "invariant": true, "pure": true, "unroll": true, "names": true, "let": true, "end": true, "sums": true, "demands": true, "covers": true}
+	"sweep": true, "modular": true, "trusted": true, "invariant": true, "pure": true, "unroll": true, "names": true, "let": true, "end": true, "sums": true, "demands": true, "covers": true, "hint": true}
 
 func ParseSpecs(lines []SpecLine) *SpecDB {
 	db := &SpecDB{Contracts: map[string]*Contract{}, Pures: map[string]*PureDef{}}
@@ -190,6 +197,19 @@ func ParseSpecs(lines []SpecLine) *SpecDB {
 			cur.Sums = true
 		case "covers":
 			cur.Covers = append(cur.Covers, parseProps(it.rest)...)
+		case "hint":
+			// hint <site> : <expr built from use_* only>
+			i := strings.Index(it.rest, ":")
+			if i < 0 {
+				errf(it, "hint <site>: <expr>")
+				continue
+			}
+			e, err := ParseExpr(it.rest[i+1:])
+			if err != nil {
+				errf(it, "hint: %v", err)
+				continue
+			}
+			cur.Hints = append(cur.Hints, &HintAt{Site: strings.TrimSpace(it.rest[:i]), Expr: e, Src: it.rest})
 		case "modular":
 			cur.Modular = true
 		case "trusted":
@@ -575,6 +595,10 @@ func (p *parser) mul() (*Expr, error) {
 }
 
 func (p *parser) unary() (*Expr, error) {
+	if t := p.peek(); t.k == "id" && (t.s == "forall" || t.s == "exists") {
+		// a quantifier as an operand extends as far to the right as possible
+		return p.expr()
+	}
 	if p.isOp("!") || p.isOp("-") {
 		op := p.next().s
 		x, err := p.unary()
